@@ -25,6 +25,9 @@ enum Conn {
     Split2,
     /// route with 2 predicates (first matching wins, x%16 >= 12 unmatched)
     Route,
+    /// a group_by stream joined (forward, keyed join) with a two-phase group_by_count stream:
+    /// both key-partitioned connections must send a key to the same replica index
+    KeyedJoinAcrossGroupBys,
 }
 
 const KEYS: i64 = 16;
@@ -71,6 +74,14 @@ fn build_job(env: &StreamContext, conn: Conn, scripts: Vec<Vec<StreamElement<i64
             let b = src(scripts.into_iter().rev().collect());
             a.join(b, |x: &i64| x % KEYS, |y: &i64| y % KEYS).for_each(|_| {});
         }
+        Conn::KeyedJoinAcrossGroupBys => {
+            // both sources first, so that they are blocks 0 and 1
+            let sa = src(scripts.clone());
+            let sb = src(scripts.into_iter().rev().collect());
+            let a = sa.group_by(|x: &i64| x % KEYS);
+            let b = sb.group_by_count(|x: &i64| x % KEYS);
+            a.join(b).for_each(|_| {});
+        }
         Conn::Split2 => {
             let mut v = src(scripts).split(2);
             v.pop().unwrap().for_each(|_| {});
@@ -95,10 +106,18 @@ fn decode(bytes: &[u8]) -> Option<i64> {
     }
 }
 
+/// (key, partial count) elements of the second phase of group_by_count
+fn decode_keyed(bytes: &[u8]) -> Option<i64> {
+    match bincode::deserialize::<StreamElement<(i64, usize)>>(bytes).ok()? {
+        StreamElement::Item(x) | StreamElement::Timestamped(x, _) => Some(x.0),
+        _ => None,
+    }
+}
+
 fn scenario(conn: Conn, layout: Layout, per_producer: usize, nkeys: i64, bound: usize) -> Scenario {
     let cores = layout.total_cores();
     // (joins reject watermarks: "Cannot yet join timestamped streams")
-    let with_wm = conn != Conn::JoinHash;
+    let with_wm = conn != Conn::JoinHash && conn != Conn::KeyedJoinAcrossGroupBys;
     let scripts = elements(cores, per_producer, nkeys, with_wm);
     let name = format!("C03/{:?}/{}/n{}k{}", conn, layout.name(), per_producer, nkeys).replace(' ', "");
     let layout2 = layout.clone();
@@ -130,7 +149,7 @@ fn scenario(conn: Conn, layout: Layout, per_producer: usize, nkeys: i64, bound: 
             }
         }
     });
-    let n_sources: u64 = if conn == Conn::JoinHash { 2 } else { 1 };
+    let n_sources: u64 = if conn == Conn::JoinHash || conn == Conn::KeyedJoinAcrossGroupBys { 2 } else { 1 };
     let layout_name = layout.name();
     let descr_s = format!("{} producers x {} elements over {} keys through a {:?} connection on {}", cores, per_producer, nkeys, conn, layout_name);
     let check: Check = Arc::new(move |r| {
@@ -186,6 +205,32 @@ fn scenario(conn: Conn, layout: Layout, per_producer: usize, nkeys: i64, bound: 
             if !links.contains(&(*f, *t)) {
                 return Err(Fail::new("c03-control-off-graph", format!("{descr}: control element sent on {:?}->{:?} which is not a link", f, t)));
             }
+        }
+        if conn == Conn::KeyedJoinAcrossGroupBys {
+            // key -> (host, replica) must be one function over both key-partitioned connections
+            let mut place: BTreeMap<i64, ((u64, u64), u64)> = BTreeMap::new();
+            let mut n = 0;
+            for e in &r.log {
+                if let Ev::Repo(Event::Sent { from, to, elems, .. }) = e {
+                    if from.0 >= n_sources {
+                        continue;
+                    }
+                    for el in elems.iter().filter(|el| el.kind <= 1) {
+                        let key = if from.0 == 0 { decode(&el.bytes).map(|x| x % KEYS) } else { decode_keyed(&el.bytes) };
+                        let key = key.ok_or_else(|| Fail::new("c03-undecodable", "cannot decode element"))?;
+                        n += 1;
+                        let here = ((to.1, to.2), to.0);
+                        let prev = place.entry(key).or_insert(here);
+                        if prev.0 != here.0 {
+                            return Err(Fail::new(
+                                "c03-key-split-across-connections",
+                                format!("{descr}: key {key} is sent to replica {:?} of block {} and to replica {:?} of block {}: the two inputs of the keyed join do not meet", prev.0, prev.1, here.0, here.1),
+                            ));
+                        }
+                    }
+                }
+            }
+            return Ok(hash_of(&(place, n)));
         }
         // data elements
         let mut key_dest: BTreeMap<(u64, i64), C3> = BTreeMap::new(); // (downstream block, key) -> replica
@@ -319,6 +364,7 @@ fn build(tier: Tier) -> Vec<Scenario> {
         Conn::JoinHash,
         Conn::Split2,
         Conn::Route,
+        Conn::KeyedJoinAcrossGroupBys,
     ];
     for l in &layouts {
         for c in conns {
